@@ -240,6 +240,7 @@ func closedCallers(c *core.Ctx, key string, allowed []string, targets ...*types.
 	for _, a := range allowed {
 		allow[a] = true
 	}
+	expandAllowed(c, allow)
 	_, sites := callersOf(c, targets...)
 	seen := map[string]bool{}
 	var names []string
@@ -364,4 +365,31 @@ func performsCalls(fn *ssa.Function, target *types.Func, depth int) []ssa.CallIn
 		}
 	}
 	return out
+}
+
+// expandAllowed: a permitted caller/writer that no longer exists (it was inlined away) is represented by its only reference caller.
+func expandAllowed(c *core.Ctx, allow map[string]bool) {
+	have := map[string]bool{}
+	for _, fn := range c.SrcFuncs {
+		have[core.FuncName(core.Outer(fn))] = true
+	}
+	toSpec := func(name string) string {
+		n := strings.TrimPrefix(name, "(*")
+		n = strings.TrimPrefix(n, "(")
+		return strings.Replace(n, ").", ".", 1)
+	}
+	byspec := map[string]string{}
+	for n := range have {
+		byspec[toSpec(n)] = n
+	}
+	for a := range allow {
+		if have[a] {
+			continue
+		}
+		if cs := core.RefCallers[toSpec(a)]; len(cs) == 1 {
+			if n, ok := byspec[cs[0]]; ok {
+				allow[n] = true
+			}
+		}
+	}
 }
